@@ -124,9 +124,11 @@ def handle (j : Json) : Json :=
       let shape := sameShape g1 g2
       let pairs := List.zip q1 q2
       let keys := q1.length == q2.length && pairs.all (fun (a, b) => a.flow == b.flow && a.key == b.key)
-      let ords := pairs.map (fun (a, b) => orderIsoAt g1 g2 a.flow a.pos b.pos)
+      let ords := pairs.map (fun (a, b) => queryIsoAt g1 g2 a.flow a.pos b.pos)   -- hypothesis of C13_layouts
+      let strict := pairs.map (fun (a, b) => orderIsoAt g1 g2 a.flow a.pos b.pos)
       Json.mkObj [("sameShape", Json.bool shape), ("sameQueries", Json.bool keys),
                   ("orderIso", Json.arr (ords.map Json.bool).toArray),
+                  ("strictOrderIso", Json.arr (strict.map Json.bool).toArray),
                   ("a1", Json.arr ((runQueries g1 g1.fuel {} q1).map answerJson).toArray),
                   ("a2", Json.arr ((runQueries g2 g2.fuel {} q2).map answerJson).toArray)]
     | .error e, _, _, _ => errJson e
